@@ -179,7 +179,9 @@ def alpha(s):
         if n == "$self":
             return n
         return names.setdefault(n, f"${len(names) + 1}")
-    return re.sub(r"\$[A-Za-z_][A-Za-z0-9_]*", sub, s)
+    # keys have spaces replaced by `_`: put the operator tokens back on their own so that a local's name ends where it ends
+    s = re.sub(r"_(Add|Sub|Mul|Div|Rem|Shl|Shr|BitAnd|BitOr|BitXor|Lt|Le|Gt|Ge|Eq|Ne|And|Or|as|[A-Za-z]+Assign=)_", r" \1 ", s)
+    return re.sub(r"\$[A-Za-z_][A-Za-z0-9]*(?:_[a-z0-9]+)*(?:~[0-9]+)?", sub, s)
 
 
 def unreachable(frames, cx, n):
